@@ -117,7 +117,7 @@ type encSAN struct {
 }
 
 type encSPKI struct {
-	kind int   // 0 RSA, 1 EC named curve, 3 bare OID (Ed25519, Ed448, X25519, X448, unknown), 4 DSA
+	kind int      // 0 RSA, 1 EC named curve, 3 bare OID (Ed25519, Ed448, X25519, X448, unknown), 4 DSA
 	n    *big.Int // RSA modulus / DSA p
 	oid  []int    // curve / algorithm OID
 	der  []byte
@@ -125,27 +125,27 @@ type encSPKI struct {
 }
 
 type encCert struct {
-	version    int
-	serial     *big.Int
-	subject    []byte // DER RDNSequence
-	issuer     []byte
-	nb, na     time.Time
-	spki       encSPKI
-	hasBasic   bool
-	isCA       bool
-	hasPathLen bool
-	pathLen    int64
-	ku         []bool // nil = no extension
-	ekus       [][]int
-	hasEKU     bool
-	sans       []encSAN
-	hasSAN     bool
-	ski, aki   []byte // nil = absent
-	akiNoKeyID bool   // AKI extension present with issuer+serial only (no keyIdentifier)
-	sigKnown   int    // Go SignatureAlgorithm value when > 0
-	sigOID     []int  // otherwise
-	extraExt   int    // number of unrelated non-critical extensions mixed in
-	caFalseExplicit bool // encode cA BOOLEAN FALSE explicitly (BER-ish, accepted by Go)
+	version         int
+	serial          *big.Int
+	subject         []byte // DER RDNSequence
+	issuer          []byte
+	nb, na          time.Time
+	spki            encSPKI
+	hasBasic        bool
+	isCA            bool
+	hasPathLen      bool
+	pathLen         int64
+	ku              []bool // nil = no extension
+	ekus            [][]int
+	hasEKU          bool
+	sans            []encSAN
+	hasSAN          bool
+	ski, aki        []byte // nil = absent
+	akiNoKeyID      bool   // AKI extension present with issuer+serial only (no keyIdentifier)
+	sigKnown        int    // Go SignatureAlgorithm value when > 0
+	sigOID          []int  // otherwise
+	extraExt        int    // number of unrelated non-critical extensions mixed in
+	caFalseExplicit bool   // encode cA BOOLEAN FALSE explicitly (BER-ish, accepted by Go)
 }
 
 var (
